@@ -139,17 +139,27 @@ def gen_calc(rng, V, tbl="public", which=None):
          "emission_table", "xsld_table", "nsld_table", "nsf_tables", "list", "mff", "f0", "mass",
          "refraction", "composite", "d2o_sld", "fasta_seq", "formula_methods", "show_table"])
     if which in ("nscat", "nsld"):
-        return ["calc", tbl, which, V.formula(rng), rng.choice([1.0, 2.5, 7.9]),
-                rng.choice([0.5, 1.798, 4.75, 6.0])]
+        ev = ["calc", tbl, which, V.formula(rng), rng.choice([1.0, 2.5, 7.9]),
+              rng.choice([0.5, 1.798, 4.75, 6.0])]
+        opts = {k: True for k in ("energy", "natural", "vector") if rng.random() < 0.2}
+        return ev + ([opts] if opts else [])
     if which == "xsld":
-        return ["calc", tbl, which, V.formula(rng, xray_ok=True), rng.choice([1.0, 5.24]),
-                rng.choice([8.04, 17.44, 1.0])]
-    if which in ("volume", "mass"):
+        ev = ["calc", tbl, which, V.formula(rng, xray_ok=True), rng.choice([1.0, 5.24]),
+              rng.choice([8.04, 17.44, 1.0])]
+        opts = {k: True for k in ("wavelength", "natural") if rng.random() < 0.2}
+        return ev + ([opts] if opts else [])
+    if which == "volume":
+        ev = ["calc", tbl, which, V.formula(rng)]
+        if rng.random() < 0.3:
+            ev.append({"packing": rng.choice(["hcp", "bcc", "cubic", "diamond", 0.68])})
+        return ev
+    if which == "mass":
         return ["calc", tbl, which, V.formula(rng)]
     if which == "activation":
         return ["calc", tbl, which, V.formula(rng), rng.choice([1.0, 10.0]),
                 rng.choice([1e5, 1e8]), rng.choice([1.0, 10.0]), rng.choice([[0, 1, 24, 360], [0], [2, 0.5]]),
-                rng.choice(["nist", "iaea"])]
+                rng.choice(["nist", "iaea"])] + ([{"cd": rng.choice([0, 70]), "fast": rng.choice([0, 50])}]
+                                                 if rng.random() < 0.3 else [])
     if which == "d2o_match":
         return ["calc", tbl, which, rng.choice(["C3H4H[1]NO@1.29n", "C6H10O5@1.5n", "C2H5OH[1]@0.789n"])]
     if which == "nsf_tables":
